@@ -838,6 +838,22 @@ func (or *oracle) step(e *env, ctx sdk.Context, run *emit.Run, o opT, ok bool, e
 	}
 	if o.Kind == "override" || o.Kind == "activate" {
 		or.epoch[c]++
+		// a reset moves the cursor AND every existing validator record to the new value
+		want := o.N
+		if o.Kind == "activate" {
+			want = 0
+		}
+		if post.Last != want {
+			out = append(out, viol{"C02:reset-incomplete", fmt.Sprintf("chain %d: %s to %d left the cursor at %d", c, o.Kind, want, post.Last)})
+		}
+		for _, r := range post.VN {
+			if r[1] != want {
+				out = append(out, viol{"C02:reset-incomplete", fmt.Sprintf("chain %d: %s to %d left validator %d's nonce record at %d", c, o.Kind, want, r[0], r[1])})
+			}
+		}
+		if len(post.VN) != len(pre.VN) {
+			out = append(out, viol{"C02:reset-incomplete", fmt.Sprintf("chain %d: %s changed the set of validator nonce records (%d -> %d)", c, o.Kind, len(pre.VN), len(post.VN))})
+		}
 	} else {
 		// the cursor moves only by claims taking effect, one nonce at a time
 		good := post.Last-pre.Last == uint64(len(newly))
